@@ -1,12 +1,13 @@
 package main
 
 import (
-	"time"
+	"bytes"
 	"fmt"
 	"io"
 	"reflect"
 	"strconv"
 	"strings"
+	"time"
 
 	"github.com/biogo/biogo/alphabet"
 	"github.com/biogo/biogo/feat"
@@ -96,6 +97,7 @@ func c02Case(r *obs.Run, i int) {
 				fail("write-error", "NewWriter: "+err.Error())
 				return
 			}
+			ends := make([]int, len(recs)) // where each record's bytes end in the output
 			for k, f := range recs {
 				before := cw.buf.Len()
 				nn, err := bw.Write(f)
@@ -107,10 +109,42 @@ func c02Case(r *obs.Run, i int) {
 					fail("byte-count", fmt.Sprintf("bed Write returned n=%d but emitted %d bytes", nn, cw.buf.Len()-before))
 					return
 				}
+				ends[k] = cw.buf.Len()
 				r.Count("write_calls_counted", 1)
 			}
 			data := append([]byte(nil), cw.buf.Bytes()...)
 			w["emitted"] = string(data)
+			// one record is refused outright by the underlying writer (every call made while it is being written returns
+			// 0 and an error), the writer is used on: the output is the other records, nothing of the refused one
+			{
+				k := rng.Intn(len(recs))
+				gw := &gateWriter{}
+				gbw, _ := bed.NewWriter(gw, m)
+				for j, f := range recs {
+					gw.closed = j == k
+					nn, err := gbw.Write(f)
+					if j == k && (err == nil || nn != 0) {
+						fail("write-error-hidden", fmt.Sprintf("the underlying writer refused every byte of record %d and bed Write returned n=%d, err=%v", j, nn, err))
+						return
+					}
+					if j != k && err != nil {
+						fail("write-error", fmt.Sprintf("Write of record %d after record %d had been refused by the underlying writer: %v", j, k, err))
+						return
+					}
+				}
+				start := 0
+				if k > 0 {
+					start = ends[k-1]
+				}
+				want := append(append([]byte(nil), data[:start]...), data[ends[k]:]...)
+				if !bytes.Equal(gw.buf.Bytes(), want) {
+					w["refused_record"] = k
+					w["emitted_with_refusal"] = gw.buf.String()
+					fail("record-differs", fmt.Sprintf("record %d of %d was refused by the underlying writer (Write returned its error), the others were accepted: the output is %q, want %q", k, len(recs), truncBytes(gw.buf.Bytes(), 300), truncBytes(want, 300)))
+					return
+				}
+				r.Count("writers_used_on_after_a_refused_record", 1)
+			}
 			for b := 0; b < len(data); b++ { // every byte offset as the point where the underlying writer starts failing
 				if len(data) > 200 && b > 2 && b < len(data)-1 && rng.Intn(len(data)/40) != 0 {
 					continue
@@ -173,6 +207,16 @@ func c02Case(r *obs.Run, i int) {
 					fail("record-differs", fmt.Sprintf("bed%d record %d Start/End/Len not preserved", n, k))
 					return
 				}
+				// the record is the caller's: appending to one of its lists must not reach into another
+				if b12, ok := got[k].(*bed.Bed12); ok {
+					_ = append(b12.BlockSizes, -7, -7)
+					_ = append(b12.BlockStarts, -9, -9)
+					if !reflect.DeepEqual(got[k], want) {
+						fail("record-differs", fmt.Sprintf("bed%d written at %d: after the caller appended to the block lists of record %d it reads %+v, want %+v", n, m, k, got[k], want))
+						return
+					}
+					r.Count("bed12_block_lists_appended_to", 1)
+				}
 				r.Count("bed_records_compared", 1)
 				if m < n {
 					r.Count("bed_narrower_widths", 1)
@@ -224,9 +268,11 @@ func c02Case(r *obs.Run, i int) {
 	curType := feat.Undefined
 	var ops []func(*gff.Writer) (int, error)
 	var opNames []string
+	var opStarts []int // where each call's bytes start in the output
 	write := func(what string, f func(*gff.Writer) (int, error)) bool {
 		ops, opNames = append(ops, f), append(opNames, what)
 		before := cw.buf.Len()
+		opStarts = append(opStarts, before)
 		nn, err := f(gw)
 		if err != nil {
 			fail("write-error", what+": "+err.Error())
@@ -390,6 +436,38 @@ func c02Case(r *obs.Run, i int) {
 		}
 	}
 
+	// one call is refused outright by the underlying writer, the writer is used on: the output is what the other calls
+	// wrote, nothing of the refused one
+	if len(ops) > 0 {
+		k := rng.Intn(len(ops))
+		gtw := &gateWriter{}
+		ggw := gff.NewWriter(gtw, width, header)
+		for j, op := range ops {
+			gtw.closed = j == k
+			nn, err := op(ggw)
+			if j == k && (err == nil || nn != 0) {
+				fail("write-error-hidden", fmt.Sprintf("the underlying writer refused every byte of gff %s (call %d) and it returned n=%d, err=%v", opNames[j], j, nn, err))
+				return
+			}
+			if j != k && err != nil {
+				fail("write-error", fmt.Sprintf("gff %s (call %d) after call %d had been refused by the underlying writer: %v", opNames[j], j, k, err))
+				return
+			}
+		}
+		end := len(data)
+		if k+1 < len(opStarts) {
+			end = opStarts[k+1]
+		}
+		want := append(append([]byte(nil), data[:opStarts[k]]...), data[end:]...)
+		if !bytes.Equal(gtw.buf.Bytes(), want) {
+			w["refused_call"] = k
+			w["emitted_with_refusal"] = gtw.buf.String()
+			fail("record-differs", fmt.Sprintf("gff %s (call %d of %d) was refused by the underlying writer and returned its error, the other calls were accepted: the output is %q, want %q", opNames[k], k, len(ops), truncBytes(gtw.buf.Bytes(), 300), truncBytes(want, 300)))
+			return
+		}
+		r.Count("writers_used_on_after_a_refused_record", 1)
+	}
+
 	// text-level coordinate convention, on my own split of the emitted lines
 	fi := 0
 	var feats []*gff.Feature
@@ -451,6 +529,16 @@ func c02Case(r *obs.Run, i int) {
 			if g.Start() != it.f.Start() || g.End() != it.f.End() || g.Len() != it.f.Len() {
 				fail("record-differs", fmt.Sprintf("item %d: Start/End/Len not preserved", k))
 				return
+			}
+			if len(g.FeatAttributes) > 0 { // the same for the attribute list of a feature
+				_ = append(g.FeatAttributes, gff.Attribute{Tag: "appended", Value: "by the caller"})
+				for a := range g.FeatAttributes {
+					_ = append([]byte(g.FeatAttributes[a].Tag), 'x')
+				}
+				if !reflect.DeepEqual(gffNormalise(g), gffNormalise(it.f)) {
+					fail("record-differs", fmt.Sprintf("item %d: after the caller appended to its attribute list the feature reads %s, want %s", k, gffBrief(g), gffBrief(it.f)))
+					return
+				}
 			}
 			r.Count("gff_features_compared", 1)
 		case "region":
